@@ -4,6 +4,7 @@
 package main
 
 import (
+	"context"
 	"bytes"
 	"encoding/json"
 	"flag"
@@ -1285,8 +1286,17 @@ func crossCheck(dir string) (map[string]int, []string) {
 	var problems []string
 	files, _ := filepath.Glob(filepath.Join(dir, "*.smt2"))
 	sort.Strings(files)
+	// The transcripts are re-decided in parallel, up to about 12 000 queries per solver and
+	// five minutes per transcript and solver (the older z3 is several times slower).
+	const maxQueries = 12000
+	var mu sync.Mutex
+	var wg sync.WaitGroup
+	sem := make(chan struct{}, *flagWorkers)
 	for _, f := range files {
-		if stats["queries_compared_cvc5"] >= 30000 {
+		mu.Lock()
+		enough := stats["queries_compared_cvc5"] >= maxQueries
+		mu.Unlock()
+		if enough {
 			break
 		}
 		data, err := os.ReadFile(f)
@@ -1314,41 +1324,58 @@ func crossCheck(dir string) (map[string]int, []string) {
 			script.WriteString(line)
 			script.WriteString("\n")
 		}
-		for _, sv := range []struct {
-			key  string
-			argv []string
-		}{{"queries_compared_z3_4_8", []string{"z3", "-in", "-t:20000"}}, {"queries_compared_cvc5", []string{"cvc5", "--incremental", "--tlimit-per=20000"}}} {
-			cmd := exec.Command(sv.argv[0], sv.argv[1:]...)
-			cmd.Stdin = strings.NewReader(script.String())
-			out, _ := cmd.Output()
-			var got []string
-			for _, l := range strings.Split(string(out), "\n") {
-				l = strings.TrimSpace(l)
-				if l == "sat" || l == "unsat" || l == "unknown" {
-					got = append(got, l)
-				} else if strings.HasPrefix(l, "(error") {
-					problems = append(problems, fmt.Sprintf("%s reported %s", sv.argv[0], l))
-				}
-			}
-			n := len(want)
-			if len(got) < n {
-				n = len(got)
-				problems = append(problems, fmt.Sprintf("%s answered %d of %d queries of %s", sv.argv[0], len(got), len(want), filepath.Base(f)))
-			}
-			for k := 0; k < n; k++ {
-				if got[k] == "unknown" || want[k] == "unknown" {
-					stats["other_solver_unknown"]++
-					continue
-				}
-				stats[sv.key]++
-				if got[k] != want[k] {
-					stats["disagreements"]++
-					if len(problems) < 5 {
-						problems = append(problems, fmt.Sprintf("%s says %s, z3 5.1 said %s on query %d of %s", sv.argv[0], got[k], want[k], k, filepath.Base(f)))
+		f, want, scriptText := f, want, script.String()
+		sem <- struct{}{}
+		wg.Add(1)
+		go func() {
+			defer wg.Done()
+			defer func() { <-sem }()
+			for _, sv := range []struct {
+				key  string
+				argv []string
+			}{{"queries_compared_z3_4_8", []string{"z3", "-in", "-t:20000"}}, {"queries_compared_cvc5", []string{"cvc5", "--incremental", "--tlimit-per=20000"}}} {
+				ctx, cancel := context.WithTimeout(context.Background(), 5*time.Minute)
+				cmd := exec.CommandContext(ctx, sv.argv[0], sv.argv[1:]...)
+				cmd.Stdin = strings.NewReader(scriptText)
+				out, _ := cmd.Output()
+				timedOut := ctx.Err() != nil
+				cancel()
+				var got []string
+				mu.Lock()
+				for _, l := range strings.Split(string(out), "\n") {
+					l = strings.TrimSpace(l)
+					if l == "sat" || l == "unsat" || l == "unknown" {
+						got = append(got, l)
+					} else if strings.HasPrefix(l, "(error") {
+						problems = append(problems, fmt.Sprintf("%s reported %s", sv.argv[0], l))
 					}
 				}
+				n := len(want)
+				if len(got) < n {
+					n = len(got)
+					if !timedOut {
+						problems = append(problems, fmt.Sprintf("%s answered %d of %d queries of %s", sv.argv[0], len(got), len(want), filepath.Base(f)))
+					} else {
+						stats["transcripts_cut_by_time_limit"]++
+					}
+				}
+				for k := 0; k < n; k++ {
+					if got[k] == "unknown" || want[k] == "unknown" {
+						stats["other_solver_unknown"]++
+						continue
+					}
+					stats[sv.key]++
+					if got[k] != want[k] {
+						stats["disagreements"]++
+						if len(problems) < 5 {
+							problems = append(problems, fmt.Sprintf("%s says %s, z3 5.1 said %s on query %d of %s", sv.argv[0], got[k], want[k], k, filepath.Base(f)))
+						}
+					}
+				}
+				mu.Unlock()
 			}
-		}
+		}()
 	}
+	wg.Wait()
 	return stats, problems
 }
